@@ -162,15 +162,13 @@ func (root *Root) regInput(sample interface{}, input *Input) error {
 
 func (root *Root) getReflectType(meta reflect.Type) (obj Type) {
 	for _, t := range root.types.list {
-		o, _ := t.(*Object)
-		if o != nil {
-			o.mu.Lock()
-			if o.meta == meta {
+		if o, _ := t.(*Object); o != nil {
+			// An object that has not been bound to a Go type yet is bound
+			// by its @go directive or its name, like a union member is.
+			if m, _ := o.metaCheck(meta); m == meta {
 				obj = o
-				o.mu.Unlock()
 				break
 			}
-			o.mu.Unlock()
 		}
 	}
 	return
